@@ -1207,7 +1207,21 @@ func TestVerif_C37(t *testing.T) {
 		}
 	})
 
-	// 3. every truncation of a message
+	// 2b. full-size well-formed messages in the harness's own uncompressed encoding, half of them
+	// with a filler that puts a new, re-used name at the first offset a compression pointer
+	// cannot express in what Pack will produce: the Unpack-Pack-Unpack round trip at the limit.
+	nBig := r.N(400, 12000)
+	run("large-valid", 16, nBig/16, func(rng *rand.Rand, x *c37ctx, k int) {
+		m, g, shape := genMsgShaped(rng, false, []int{0, 1, 1, 2}[rng.IntN(4)])
+		b := m.refEncode()
+		if len(b) > 65535 {
+			return
+		}
+		x.ev[fmt.Sprintf("large_valid_shape_%d", shape)]++
+		x.ev["large_valid_fresh_name_aimed_at_offset_0x4000"] += int64(g.aimed)
+		x.check(b, "large-valid")
+	})
+
 	nTr := r.N(224, 9000)
 	run("truncations", 32, nTr/32, func(rng *rand.Rand, x *c37ctx, k int) {
 		b, _ := c37Base(rng)
